@@ -65,4 +65,22 @@ theorem no_bad_indices (top : K) (m l : Nat) (hm : 1 ≤ m) (hl : 1 ≤ l) (t : 
     (hlt : ∀ p ∈ allPtsFrom t m s.g s.seed hs 0 [], p.2.1 < top) : ∃ r, OrdMH.hashSet t.toOps top s hs = .ok r :=
   no_bad_index top m l hm hl t hn s hp hs hlen hlt
 
+/-- **C11 (g)** the SIGNATURE itself (the model now contains the combiner, `Model/Hashers.lean`): position `k` is the WyHash
+combination, seeded with `wyseed`, of the hashes of the elements at the indices of block `k` — which by (a), (b) are the `l`
+selected elements in sequence order; the signature has exactly `m` positions -/
+theorem signature_is_combined_hash_of_block {F : Type} (r : OrdMH F) (hs : List UInt64) (wy : UInt64) (k : Nat) (hk : k < r.m) :
+    (r.signature hs wy)[k]? =
+      some (Hashers.wyCombine wy ((OrdP.finalBlock r k).map (fun i => hs.toArray.getD i 0))) ∧
+    (r.signature hs wy).length = r.m := by
+  unfold OrdMH.signature OrdP.finalBlock
+  simp [List.getElem?_map, List.getElem?_range, hk, List.map_map, Function.comp_def]
+
+/-- consequently two runs whose index blocks spell the same element hashes at a position give the same signature there,
+whatever else differs (in particular for `l = 1` under every permutation of the sequence, by (d)) -/
+theorem signature_position_depends_on_spelled_hashes {F : Type} (r r' : OrdMH F) (hs hs' : List UInt64) (wy : UInt64) (k : Nat)
+    (hk : k < r.m) (hk' : k < r'.m)
+    (h : (OrdP.finalBlock r k).map (fun i => hs.toArray.getD i 0) = (OrdP.finalBlock r' k).map (fun i => hs'.toArray.getD i 0)) :
+    (r.signature hs wy)[k]? = (r'.signature hs' wy)[k]? := by
+  rw [(signature_is_combined_hash_of_block r hs wy k hk).1, (signature_is_combined_hash_of_block r' hs' wy k hk').1, h]
+
 end PMH.C11
